@@ -1000,7 +1000,13 @@ fn exec_userfunc_or_array_or_macro(song: &mut Song, t: &Token) -> bool {
         }
     }
     // check func_id
-    let func_id = t.tag as usize;
+    // statement call: read_call_function stores the id in value_i
+    // call in expression: read_value_word stores only the name, so resolve it here
+    let func_id = if t.data.len() > 0 {
+        match song.variables_get(&t.data[0].to_s()) { Some(SValue::UserFunc(id)) => *id, _ => song.functions.len() }
+    } else {
+        t.value_i as usize
+    };
     if song.functions.len() <= func_id {
         runtime_error(song, &format!("broken func_id={} in exec_call_user_function", func_id));
         return false;
